@@ -59,6 +59,9 @@ func (o *c02Obj) DeepCopyObject() runtime.Object {
 var (
 	c02Cluster map[c02Key]*c02Obj
 	c02Log     []string
+	// c02Hook, when set, is told when a create/delete request for the named object
+	// starts and ends (C08 barrier harness); natively the fake REST handler calls it
+	c02Hook func(name, phase string)
 )
 
 func c02Plural(kind string) string { return strings.ToLower(kind) + "s" }
@@ -90,6 +93,10 @@ func c02Create(info *resource.Info) error {
 	if _, ok := c02Cluster[k]; ok {
 		return apierrors.NewAlreadyExists(schema.GroupResource{Resource: c02Plural(k.kind)}, info.Name)
 	}
+	if c02Hook != nil && !ndNative() {
+		c02Hook(k.name, "start")
+		defer c02Hook(k.name, "end")
+	}
 	c02Cluster[k] = info.Object.(*c02Obj).DeepCopyObject().(*c02Obj)
 	c02Log = append(c02Log, "create "+k.kind+"/"+k.ns+"/"+k.name)
 	return nil
@@ -110,6 +117,10 @@ func c02Delete(info *resource.Info, policy metav1.DeletionPropagation) error {
 	k := c02KeyOf(info)
 	if _, ok := c02Cluster[k]; !ok {
 		return apierrors.NewNotFound(schema.GroupResource{Resource: c02Plural(k.kind)}, info.Name)
+	}
+	if c02Hook != nil && !ndNative() {
+		c02Hook(k.name, "start")
+		defer c02Hook(k.name, "end")
 	}
 	delete(c02Cluster, k)
 	c02Log = append(c02Log, "delete "+k.kind+"/"+k.ns+"/"+k.name)
@@ -164,6 +175,10 @@ func c02REST() resource.RESTClient {
 				body, _ := io.ReadAll(req.Body)
 				var o c02Obj
 				json.Unmarshal(body, &o)
+				if c02Hook != nil {
+					c02Hook(o.Name, "start")
+					defer c02Hook(o.Name, "end")
+				}
 				k := c02Key{o.Kind, ns, o.Name}
 				if _, exists := c02Cluster[k]; exists {
 					return reply(409, map[string]interface{}{"kind": "Status", "apiVersion": "v1", "status": "Failure", "reason": "AlreadyExists", "code": 409})
@@ -180,6 +195,10 @@ func c02REST() resource.RESTClient {
 				c02Log = append(c02Log, "update "+k.kind+"/"+k.ns+"/"+k.name)
 				return reply(200, o)
 			case http.MethodDelete:
+				if c02Hook != nil {
+					c02Hook(parts[3], "start")
+					defer c02Hook(parts[3], "end")
+				}
 				k, o := find(parts[3])
 				if o == nil {
 					return reply(404, notFound)
